@@ -1,8 +1,11 @@
 (** C09 — low-latency chunked delivery is the same media, never delivered early.
     Only statements; every proof is [exact <lemma>] (lemmas in theories/ChunkProofs.v).
     Model: theories/Chunk.v ([chunkSegment], [writeChunkedSegment]'s pacing loop). *)
-From Verif Require Import GoSem Chunk ChunkProofs.
+From Verif Require Import GoSem Chunk ChunkProofs ChunkServedProofs.
+From Verif Require Timeline TimelineProofs.
 From Coq Require Import Sorted.
+Module T := Timeline.
+Module TP := TimelineProofs.
 
 (** Splitting is a partition: for a positive chunk duration and samples of positive duration the
     chunks' samples, concatenated, are the segment's samples in order with decode times
@@ -64,13 +67,105 @@ Theorem C09_never_early : forall (clock : nat -> Z) (sleep : nat -> Z -> nat),
 Proof. exact never_early. Qed.
 Print Assumptions C09_never_early.
 
-(** A request before the advertised availability time (segment end - availabilityTimeOffset) is
-    refused as too early, one at or after it is not (decision of CheckTimeValidity on the
-    millisecond grid). *)
-Theorem C09_too_early : forall availMS atoMS nowMS, 0 < atoMS ->
+(** No chunk spans - and none is paced with - more media time than the advertised
+    availabilityTimeOffset leaves (segment duration - ato), up to one longest sample; exact
+    arithmetic, ticks * 1000 against ms * timescale.  [chunkDurOf] is the Go expression
+    [(SegmentDurMS - int(ato*1000)) * timescale / 1000]. *)
+Theorem C09_span_vs_offset : forall fs st newTime newNr newDur segDurMS atoMS ts cs,
+  let C := chunkDurOf segDurMS atoMS ts in
+  0 < C < two63 -> wf_input fs newTime ->
+  chunkSegment fs st newTime newNr newDur C = Ok cs ->
+  Forall (fun c => chunk_span c * 1000 < (segDurMS - atoMS) * ts + max_dur fs * 1000 /\
+                   c_dur c * 1000 <= (segDurMS - atoMS) * ts + max_dur fs * 1000) cs.
+Proof. exact span_vs_offset. Qed.
+Print Assumptions C09_span_vs_offset.
+
+(** ... so that a request made at the advertised availability time can be answered at once:
+    the instant the pacing loop waits for before writing the first chunk is at most one longest
+    sample (in ms, rounded down) after segment start + segment duration - ato. *)
+Theorem C09_first_chunk_at_availability :
+  forall fs st newTime newNr newDur segDurMS atoMS ts startTimeS segStartMS c0 rest,
+  let C := chunkDurOf segDurMS atoMS ts in
+  0 < C < two63 -> 0 < ts -> wf_input fs newTime ->
+  chunkSegment fs st newTime newNr newDur C = Ok (c0 :: rest) ->
+  (newTime + startTimeS * ts) * 1000 = segStartMS * ts ->
+  0 <= segStartMS ->
+  match avail_list ts (newTime + startTimeS * ts) (c0 :: rest) with
+  | a0 :: _ => a0 <= segStartMS + (segDurMS - atoMS) + (max_dur fs * 1000) / ts
+  | [] => False
+  end.
+Proof. exact first_chunk_paced. Qed.
+Print Assumptions C09_first_chunk_at_availability.
+
+(** Same media: the body of the chunked response, parsed as a client does (tfdt of every
+    fragment + sample durations), is the sample sequence of whole-segment mode (the VoD fragments
+    with every tfdt shifted by newTime - first tfdt, uint64 arithmetic): same order, durations,
+    opaque per-sample data (flags, size, composition offset, payload) and decode times.
+    Hypothesis: the fragments of the VoD segment are contiguous. *)
+Theorem C09_same_media : forall newTime f0 frags st newNr newDur C cs,
+  0 < C ->
+  frags_contiguous (f_tfdt f0) (f0 :: frags) ->
+  wf_input (frag_samples (f0 :: frags)) newTime ->
+  Forall (fun s => 0 < s_dur s) (frag_samples (f0 :: frags)) ->
+  chunkSegment (frag_samples (f0 :: frags)) st newTime newNr newDur C = Ok cs ->
+  parse_body cs = whole_parse newTime (f0 :: frags) /\
+  Forall (fun c => c_seq c = newNr) cs /\ styp_first st cs.
+Proof. exact same_media. Qed.
+Print Assumptions C09_same_media.
+
+(** The hypothesis is needed: with a gap between two fragments of the VoD segment whole-segment
+    mode keeps the gap and chunked mode closes it (decode times differ). *)
+Theorem C09_same_media_gap_refuted :
+  exists newTime f0 frags cs,
+    wf_input (frag_samples (f0 :: frags)) newTime /\
+    Forall (fun s => 0 < s_dur s) (frag_samples (f0 :: frags)) /\
+    chunkSegment (frag_samples (f0 :: frags)) true newTime 1 20 10 = Ok cs /\
+    parse_body cs <> whole_parse newTime (f0 :: frags).
+Proof. exact same_media_gap. Qed.
+Print Assumptions C09_same_media_gap_refuted.
+
+(** The same, for the same URL and instant, through the segment lookup of the simulator
+    (theories/Timeline.v, C01/C04): when segment n is served, both modes deliver the VoD samples
+    at the looped time S n with sequence number startNr + n. *)
+Theorem C09_same_media_served : forall r loopMS c n now m f0 frags st C cs,
+  T.wf r loopMS -> 0 <= n -> 0 <= T.startNr c -> T.startNr c + n < two32 -> T.S r n < two64 ->
+  T.lookup r loopMS c T.ByNumber (T.startNr c + n) now = T.TOk m ->
+  0 < C ->
+  frags_contiguous (f_tfdt f0) (f0 :: frags) ->
+  wf_input (frag_samples (f0 :: frags)) (T.S r n) ->
+  Forall (fun s => 0 < s_dur s) (frag_samples (f0 :: frags)) ->
+  chunkSegment (frag_samples (f0 :: frags)) st (T.newTime m) (T.newNr m) (T.newDur m) C = Ok cs ->
+  T.newTime m = T.S r n /\ T.newNr m = T.startNr c + n /\
+  parse_body cs = whole_parse (T.S r n) (f0 :: frags) /\
+  Forall (fun k => c_seq k = T.startNr c + n) cs /\ styp_first st cs.
+Proof. exact same_media_served. Qed.
+Print Assumptions C09_same_media_served.
+
+(** A chunked request (finite availabilityTimeOffset > 0) is refused as too early exactly when
+    it is made before the advertised availability time
+    availabilityStartTime + E n / timescale - ato (units: ms * timescale), addressed by number
+    or by time; all instants, on and off the millisecond grid. *)
+Theorem C09_too_early : forall r loopMS c n now atoMS,
+  T.wf r loopMS -> 0 <= n -> 0 <= T.startNr c -> T.startNr c + n < two32 ->
+  T.ato c = Some atoMS -> 0 < atoMS ->
+  (TP.ophase (T.lookup r loopMS c T.ByNumber (T.startNr c + n) now) = 0 <->
+   now * T.ts r < (T.E r n + T.startS c * T.ts r) * 1000 - atoMS * T.ts r).
+Proof. exact chunked_too_early_number. Qed.
+Print Assumptions C09_too_early.
+
+Theorem C09_too_early_time : forall r loopMS c n now atoMS,
+  T.wf r loopMS -> 0 <= n -> T.S r n < two64 ->
+  T.ato c = Some atoMS -> 0 < atoMS ->
+  (TP.ophase (T.lookup r loopMS c T.ByTime (T.S r n) now) = 0 <->
+   now * T.ts r < (T.E r n + T.startS c * T.ts r) * 1000 - atoMS * T.ts r).
+Proof. exact chunked_too_early_time. Qed.
+Print Assumptions C09_too_early_time.
+
+(** The decision used by the correspondence on the millisecond grid. *)
+Theorem C09_too_early_grid : forall availMS atoMS nowMS, 0 < atoMS ->
   (tooEarly availMS atoMS nowMS = true <-> nowMS < availMS - atoMS).
 Proof. exact tooEarly_spec. Qed.
-Print Assumptions C09_too_early.
+Print Assumptions C09_too_early_grid.
 
 (** Defect: an availabilityTimeOffset equal to the segment duration (more precisely
     |(segDurMS - atoMS) * timescale| < 1000) makes chunkDur 0 and chunkSegment divides by it. *)
@@ -80,6 +175,15 @@ Theorem C09_chunkdur_refuted : forall fs st newTime newNr newDur segDurMS atoMS 
   = Panic "chunkSegment:segMeta.newDur/uint32(chunkDur)".
 Proof. exact chunkdur_panic. Qed.
 Print Assumptions C09_chunkdur_refuted.
+
+(** An availabilityTimeOffset beyond the segment duration makes chunkDur negative: every sample
+    becomes a chunk of its own (no panic unless chunkDur is a multiple of 2^32). *)
+Theorem C09_chunkdur_negative : forall fs st newTime newNr newDur C cs,
+  C < 0 -> Forall (fun s => 0 <= s_dur s) fs ->
+  chunkSegment fs st newTime newNr newDur C = Ok cs ->
+  length cs = length fs /\ Forall (fun c => length (c_samples c) = 1%nat) cs.
+Proof. exact chunkSegment_negative. Qed.
+Print Assumptions C09_chunkdur_negative.
 
 (** Non-vacuity: 2 s segment of 8 samples, availabilityTimeOffset 1.25 s at timescale 1000
     (chunkDur 750): chunks of 3, 3 and 2 samples; a clock ticking 7 ms per step with an exact
@@ -109,3 +213,28 @@ Proof.
       pose proof (Z.div_mod (d + 6) 7 ltac:(lia)). pose proof (Z.mod_pos_bound (d + 6) 7 ltac:(lia)). lia.
   - eexists. split; [vm_compute; reflexivity|]. split; vm_compute; reflexivity.
 Qed.
+
+(** Non-vacuity of C09_same_media_served / C09_too_early: segment 5 of a 4 x 2 s loop at timescale
+    1000 (two VoD fragments of 4 samples each), ato 1.5 s: refused until 10.5 s, then served;
+    chunk period 500 ticks: four chunks of two samples whose parsed body is the whole segment
+    at the looped time 10000. *)
+Example C09_served_example :
+  let r := {| T.segs := [ {| T.st := 0; T.en := 2000; T.snr := 1 |}; {| T.st := 2000; T.en := 4000; T.snr := 2 |};
+                          {| T.st := 4000; T.en := 6000; T.snr := 3 |}; {| T.st := 6000; T.en := 8000; T.snr := 4 |} ];
+              T.ts := 1000 |} in
+  let c := {| T.startS := 0; T.startNr := 0; T.tsbdS := 60; T.ato := Some 1500 |} in
+  let mk := fun t0 => {| f_tfdt := t0; f_samples := map (fun i => {| s_dur := 250; s_tag := t0 + i; s_dt := 0 |}) [0;1;2;3] |} in
+  let f0 := mk 2000 in let frags := [mk 3000] in
+  map (fun now => TP.ophase (T.lookup r 8000 c T.ByNumber 5 now)) [10499; 10500] = [0; 1] /\
+  frags_contiguous (f_tfdt f0) (f0 :: frags) /\
+  match T.lookup r 8000 c T.ByNumber 5 10500 with
+  | T.TOk m =>
+    match chunkSegment (frag_samples (f0 :: frags)) true (T.newTime m) (T.newNr m) (T.newDur m) (chunkDurOf 2000 1500 1000) with
+    | Ok cs => map (fun k => lenZ (c_samples k)) cs = [2; 2; 2; 2] /\
+               parse_body cs = whole_parse (T.S r 5) (f0 :: frags) /\
+               map s_dt (parse_body cs) = [10000; 10250; 10500; 10750; 11000; 11250; 11500; 11750]
+    | _ => False
+    end
+  | _ => False
+  end.
+Proof. cbv zeta. split; [vm_compute; reflexivity|]. split; [cbn; repeat split|]. vm_compute. repeat split. Qed.
